@@ -148,6 +148,17 @@ func (s *Solver) Close() {
 	}
 }
 
+// Reset restarts the solver processes (dropping all accumulated definitions and
+// the query cache) while keeping the statistics.
+func (s *Solver) Reset() {
+	s.restart()
+	s.cache = map[string]Result{}
+	s.preferFallback = false
+	for _, f := range s.Fallbacks {
+		f.Reset()
+	}
+}
+
 func (s *Solver) restart() {
 	if s.cmd != nil {
 		s.in.Close()
